@@ -1691,6 +1691,12 @@ func (self *Node) removePair(i int) {
 	if last == nil {
 		return
 	}
+	/* go through Unset so that the hash index forgets the pair */
+	if p := (*linkedPairs)(self.p); p != nil && p.index != nil {
+		if j, ok := p.index[last.hash]; ok && p.At(j) == last {
+			p.Unset(j)
+		}
+	}
 	*last = Pair{}
 	// NOTICE: should be consistent with linkedPair.Len()
 	self.l--
@@ -1701,7 +1707,8 @@ func (self *Node) removePairAt(i int) {
 	if p == nil {
 		return
 	}
-	*p = Pair{}
+	/* go through Unset so that the hash index forgets the pair */
+	(*linkedPairs)(self.p).Unset(i)
 	// NOTICE: should be consistent with linkedPair.Len()
 	self.l--
 }
